@@ -224,8 +224,8 @@ impl RoutingThread {
                     .unwrap();
             }
             Message::Block(_) => {
-                error!("received block message");
-                unreachable!();
+                // blocks are fetched, never pushed: a peer sending one as a message is ignored
+                error!("received block message from peer : {:?}", peer_index);
             }
         }
     }
